@@ -1461,14 +1461,25 @@ class TestSubprocess:
         p = self._process
 
         self.all_futures.append(asyncio.ensure_future(p.wait()))
+        async def kill() -> str:
+            # A cancellation (--maxfail, Ctrl-C) that arrives while the process is
+            # being killed must neither abort the kill sequence nor lose the result.
+            task = asyncio.ensure_future(self._kill())
+            while not task.done():
+                try:
+                    await asyncio.shield(task)
+                except asyncio.CancelledError:
+                    pass
+            return task.result() or ''
+
         try:
             await complete_all(self.all_futures, timeout=test.timeout)
         except asyncio.TimeoutError:
-            test.additional_error += await self._kill() or ''
+            test.additional_error += await kill()
             test.res = TestResult.TIMEOUT
         except asyncio.CancelledError:
             # The main loop must have seen Ctrl-C.
-            test.additional_error += await self._kill() or ''
+            test.additional_error += await kill()
             test.res = TestResult.INTERRUPT
         finally:
             if self.postwait_fn:
@@ -1669,12 +1680,22 @@ class SingleTestRunner:
         stdo_task, stde_task = p.communicate(self.runobj, self.console_mode)
         await p.wait(self.runobj)
 
-        if parse_task:
-            await parse_task
-        if stdo_task:
-            await stdo_task
-        if stde_task:
-            await stde_task
+        try:
+            if parse_task:
+                await parse_task
+            if stdo_task:
+                await stdo_task
+            if stde_task:
+                await stde_task
+        except asyncio.CancelledError:
+            # Cancelled (--maxfail, Ctrl-C, SIGTERM) after the process has ended but
+            # before its output was collected: report the test instead of dropping it.
+            if self.runobj.res is TestResult.RUNNING:
+                self.runobj.res = TestResult.INTERRUPT
+            for task in (parse_task, stdo_task, stde_task):
+                if task:
+                    task.cancel()
+                    await complete(task)
 
         self.runobj.complete()
 
